@@ -228,3 +228,20 @@ Definition witness_code (w : option witness) : list Z :=
 
 (** counters for the evidence *)
 Definition count_kind (k : hkind) (h : history) : Z := Z.of_nat (length (filter (fun c => hkind_eqb (h_kind c) k) h)).
+
+(** (number of triples a, b, m with a returned before b was issued and both returned m;
+     number of those in which a's lease - extends included - was still unexpired at b's phase time,
+     i.e. the cases in which the monitor had to find a call able to end the lease) *)
+Definition pair_stats (h : history) : Z * Z :=
+  fold_right (fun a acc =>
+    if hkind_eqb (h_kind a) HDeq then
+      fold_right (fun it acc1 =>
+        let exts := filter (is_good_extend (it_lease it)) h in
+        fold_right (fun b acc2 =>
+          if returns (it_id it) b then
+            if hb a b then
+              (fst acc2 + 1,
+               if h_now b <? lease_end exts (it_lease it) (it_until it) a b then snd acc2 + 1 else snd acc2)
+            else acc2
+          else acc2) acc1 h) acc (h_items a)
+    else acc) (0, 0) h.
